@@ -29,9 +29,9 @@ Print Assumptions C09_files_decode.
 (* "the image object stays usable afterwards": in every history, after every successful save the saving
    image is still there and still denotes the data it had at that save (with fix 29b7b6ce: an image whose
    own proxy reads the target file is re-pointed to the data just written, its caches dropped).
-   Side conditions: names of one file belong to one image class [names_wf]; proxy images are of the class
-   of the name they were loaded from [classes_ok] - true of every initial world and kept by every step;
-   MGH clipping data of both signs to uint8 is excluded (the FILE does not hold the data then). *)
+   Side conditions: names of one file belong to one name family and the class table is idempotent [names_wf];
+   proxy images and files hold a class that fits their names [classes_ok] - true of every initial world and kept
+   by every step; uint8 storage of data of both signs is excluded (MGH clips: the FILE does not hold the data). *)
 Theorem C09_usable : forall g ops w,
   g_fix g = true -> g_reshape_ok g = true -> g_repoint g = true -> names_wf g -> classes_ok g w ->
   r_all (usable g) g w ops.
@@ -39,20 +39,29 @@ Proof. exact usable_all. Qed.
 Print Assumptions C09_usable.
 
 Theorem C09_initial_worlds_classes_ok : forall g w,
-  (forall s im, img_at w s = Some im -> exists v, i_src im = SArray v) -> classes_ok g w.
+  (forall s im, img_at w s = Some im -> exists v, i_src im = SArray v) ->
+  (forall p c, file_at w (fid g p) = Some c -> g_tclass g (k_cls c) (pi_fmt (pinfo_of g p)) = k_cls c) ->
+  classes_ok g w.
 Proof. exact no_proxies_classes_ok. Qed.
 Print Assumptions C09_initial_worlds_classes_ok.
 
-Definition w_one (d : dtype) : world := mkW [Some (mkK (Some 0%nat) d 0%nat 0%nat)] [None; None] false.
+(* the measured class table is idempotent; names of one file must be of one family (a condition on the name set) *)
+Theorem C09_platform_names_wf : forall n paths fids fx sc mx ld,
+  (forall p t, nth p fids p = nth t fids t -> pi_fmt (nth p paths (mkP Nii false)) = pi_fmt (nth t paths (mkP Nii false))) ->
+  names_wf (platform_cfg n paths fids fx sc mx ld).
+Proof. exact platform_names_wf. Qed.
+Print Assumptions C09_platform_names_wf.
+
+Definition w_one (d : dtype) : world := mkW [Some (mkK (Some 0%nat) d 0%nat 0%nat Nii)] [None; None] false.
 (* an int16 file with preset scale factors (identity 1); the writers compute identity 2 for value 0 *)
-Definition w_scaled : world := mkW [Some (mkK (Some 0%nat) I2 0%nat 1%nat); None] [None; None] false.
+Definition w_scaled : world := mkW [Some (mkK (Some 0%nat) I2 0%nat 1%nat Nii); None] [None; None] false.
 Definition sc_tab : list (fmt * dtype * nat * nat) := [(Nii, I2, 0%nat, 2%nat); (Nii, U1, 0%nat, 3%nat); (Spm, I2, 0%nat, 4%nat)].
 Definition g_one (n : Z) (fx : bool) : cfg := platform_cfg n [mkP Nii false] [0%nat] fx sc_tab false false.
 
 (* the same configuration without the re-pointing of fix 29b7b6ce *)
 Definition g_unrep (n : Z) : cfg :=
   mkCfg n platform_page [mkP Nii false] [0%nat] platform_off platform_foot platform_conv true sc_tab
-        platform_nointer false false true false.
+        platform_nointer false false true false platform_tclass.
 
 (* the repair matters (finding S-C09c, fixed by 29b7b6ce).  Without it: load a.nii, set_data_dtype(other
    width), save onto a.nii: the file is right, the image is not - narrower: its reads are refused (OSError);
@@ -60,7 +69,7 @@ Definition g_unrep (n : Z) : cfg :=
 Theorem C09_unrepaired_refuted :
   (let w := fst (run (g_unrep 24) (w_one F8) [Load 0 0 true; SetDtype 0; Save 0 0]) in
    snd (run (g_unrep 24) (w_one F8) [Load 0 0 true; SetDtype 0; Save 0 0]) = [ODone; ODone; OSaved 0 (Some 0%nat) F4 0 0]
-   /\ file_at w 0 = Some (mkK (Some 0%nat) F4 0%nat 0%nat)
+   /\ file_at w 0 = Some (mkK (Some 0%nat) F4 0%nat 0%nat Nii)
    /\ exists im, img_at w 0 = Some im /\ denote (g_unrep 24) (w_fs w) im = RRefused)
   /\
   (let w := fst (run (g_unrep 24) (w_one F4) [Load 0 0 true; SetDtype 0; Save 0 0]) in
@@ -94,6 +103,23 @@ Theorem C09_no_crash_partial : forall g, cfg_wf g -> g_fix g = true ->
 Proof. exact no_crash_partial. Qed.
 Print Assumptions C09_no_crash_partial.
 
+(* S-C09b exactly.  [affected g w ops] is a decidable (boolean, computed) predicate on the history: at some point
+   of the run a live cached memory map loses its backing - a save has made its file shorter than the map.
+   Every history that is NOT affected has no Crash step at all ... *)
+Theorem C09_no_crash : forall g, g_fix g = true ->
+  forall ops w, backed g w -> affected g w ops = false -> ~ In OCrash (snd (run g w ops)).
+Proof. exact no_crash_unaffected. Qed.
+Print Assumptions C09_no_crash.
+
+(* ... and the predicate is tight: at the very step that makes a history affected, one more operation - a
+   get_fdata of the image holding that map - kills the process.  (So the affected histories are exactly those
+   with a crashing one-step continuation at that point; finding S-C09b, inherent to mmap.) *)
+Theorem C09_affected_is_real : forall g w o, g_fix g = true -> backed g w -> w_dead w = false ->
+  unbackedb g (fst (step g w o)) = true ->
+  exists s, snd (step g (fst (step g w o)) (Fdata s)) = OCrash.
+Proof. exact affected_is_real. Qed.
+Print Assumptions C09_affected_is_real.
+
 Theorem C09_initial_worlds_backed : forall g w, no_caches w -> backed g w.
 Proof. exact no_caches_backed. Qed.
 Print Assumptions C09_initial_worlds_backed.
@@ -103,6 +129,8 @@ Print Assumptions C09_initial_worlds_backed.
    since 29b7b6ce (its caches are dropped when it is re-pointed); it crashed before (g_unrep) *)
 Theorem C09_no_crash_refuted :
   cfg_wf (g_one 2048 true) /\ no_caches (w_one F8)
+  /\ affected (g_one 2048 true) (w_one F8) [Load 0 0 true; Fdata 0; Load 1 0 true; SetDtype 1; Save 1 0] = true
+  /\ affected (g_one 2048 true) (w_one F8) [Load 0 0 true; Fdata 0; SetDtype 0; Save 0 0; Fdata 0] = false
   /\ snd (run (g_one 2048 true) (w_one F8) [Load 0 0 true; Fdata 0; Load 1 0 true; SetDtype 1; Save 1 0; Fdata 0])
      = [ODone; OVal (Some 0%nat); ODone; ODone; OSaved 0 (Some 0%nat) F4 0 0; OCrash]
   /\ snd (run (g_one 2048 true) (w_one F8) [Load 0 0 true; Fdata 0; SetDtype 0; Save 0 0; Fdata 0])
@@ -143,12 +171,12 @@ Print Assumptions C09_other_name_same_file.
    three axes goes through ArrayProxy.reshape, which must keep the scale factors *)
 Theorem C09_refusals_and_reshape :
   (let g := platform_cfg 24 [mkP Spm false; mkP Spm false] [0%nat; 1%nat] true sc_tab true false in
-   let w := mkW [Some (mkK (Some 0%nat) F8 0%nat 0%nat); Some (mkK (Some 1%nat) F8 1%nat 0%nat)] [None; None] false in
+   let w := mkW [Some (mkK (Some 0%nat) F8 0%nat 0%nat Spm); Some (mkK (Some 1%nat) F8 1%nat 0%nat Spm)] [None; None] false in
    run g w [Load 0 0 true; SaveU8 0 0; SaveU8 0 1; SaveFull 0]
    = (fst (run g w [Load 0 0 true]), [ODone; ORefused EWriter; ORefused EWriter; ORefused ENoSpace]))
   /\
   (let g ok := mkCfg 24 platform_page [mkP Nii false; mkP Mgh false] [0%nat; 1%nat] platform_off platform_foot
-                     platform_conv true sc_tab platform_nointer false true ok true in
+                     platform_conv true sc_tab platform_nointer false true ok true platform_tclass in
    snd (run (g true) w_scaled [Load 0 0 true; Save 0 1]) = [ODone; OSaved 1 (Some 0%nat) F4 0 0]
    /\ snd (run (g false) w_scaled [Load 0 0 true; Save 0 1]) = [ODone; OSaved 1 None F4 0 0]).
 Proof. vm_compute. repeat split. Qed.
@@ -158,7 +186,7 @@ Print Assumptions C09_refusals_and_reshape.
    other file and back, over two NIfTI files *)
 Example C09_nonvacuous :
   let g := platform_cfg 2048 [mkP Nii false; mkP Nii false] [0%nat; 1%nat] true sc_tab false false in
-  let w := mkW [Some (mkK (Some 0%nat) F8 0%nat 0%nat); Some (mkK (Some 1%nat) F8 1%nat 0%nat)] [None; None] false in
+  let w := mkW [Some (mkK (Some 0%nat) F8 0%nat 0%nat Nii); Some (mkK (Some 1%nat) F8 1%nat 0%nat Nii)] [None; None] false in
   let ops := [Load 0 0 true; Fdata 0; Save 0 0; Save 0 1; Load 1 1 true; Fdata 1; Save 1 0; Fdata 0; ToBytes 1;
               Uncache 1; SetInt 1; SaveFull 1; Save 1 1; Load 0 1 false; Fdata 0] in
   cfg_wf g /\ backed g w /\ no_hazard g w ops
